@@ -79,6 +79,10 @@ def main():
                 when = act[1] if len(act) > 1 else None
                 if when == "other-first":
                     module("other")
+                if isinstance(when, list):
+                    # an explicit import order of the package's modules (circular imports, plug-in modules)
+                    for w in when:
+                        module(w)
                 module("aux")
                 module("mod")
                 if when == "other-last":
